@@ -925,6 +925,15 @@ def classify(ck, rows, errs, dist):
         ninst = 0 if obs == "Raised" else len(obs)
         dist["instances:%s" % ("raised" if obs == "Raised" else min(ninst, 12))] += 1
         dist["hyg:%s" % r.get("hyg")] += 1
+        dist["hyg:%s:%s" % (stream.split(":")[0], r.get("hyg"))] += 1
+        blob = json.dumps([st["run"] for st in c["steps"]], default=str)
+        for kind, pat in (("param_value", r"\$\((?:%s)\)" % "|".join(PARAM_KEYS)), ("param_label", r"\.label\)"),
+                          ("param_name", r"\.name\)"), ("step_workspace", r"\.workspace\)"),
+                          ("own_workspace", r"\$\(WORKSPACE\)"), ("funnel_dep", r"\*"),
+                          ("env_token", r"\$\((?:%s|OUTPUT_PATH|SPECROOT)\)" % "|".join(VAR_NAMES + LABEL_NAMES + DEP_NAMES)),
+                          ("shell_subst", r"\$\((?:date|echo|ls|\s)"), ("restart", r'"restart": "[^"]')):
+            if re.search(pat, blob):
+                dist["uses:" + kind] += 1
         nontrivial = obs != "Raised" and any("$(" in json.dumps(st["run"], default=str) for st in c["steps"])
         ck.count(json.dumps(_case_json(c), sort_keys=True, default=str), nontrivial=nontrivial)
         ck.cov["traces_validated_against_impl"] += 1
